@@ -3,9 +3,10 @@
 // Explicit-state BFS (to fixpoint) over histories of events driving the REAL
 // server: server.New starts the real healthCheckLoop goroutine, compiled
 // against the virtual clock (overlay: "time" -> verif/shim/vtime in package
-// server); a "check" event fires the loop's timer and waits for the loop to
-// re-arm it; scripted tokens (type "verif") answer each Ping per the event's
-// outcome vector; "advance" moves the virtual clock; GET /health is evaluated
+// server); a "check" event delivers the wake-up the loop is waiting for and
+// lets it run until it waits again; every token Ping blocks until the harness
+// answers it per the event's outcome vector (so Close can also arrive in the
+// middle of a check); "advance" moves the virtual clock; GET /health is evaluated
 // through the real http.Handler in every state and compared with a reference
 // predicate computed from the history. Close is explored at every state.
 package main
@@ -16,7 +17,6 @@ import (
 	"fmt"
 	"net/http"
 	"net/http/httptest"
-	"os"
 	"runtime"
 	"strings"
 	"time"
@@ -87,30 +87,95 @@ func mkConfig(c cfgT) *config.Config {
 	return cfg
 }
 
-// instance is one live server plus the reference history.
+// instance is one live server plus the reference history. The loop goroutine
+// is driven through the only two things it can wait on: token pings (each
+// Ping blocks until the harness answers it) and virtual timers (fired by the
+// harness). Nothing else about the loop's structure is assumed: a "check" is
+// "deliver the wake-up the loop is waiting for and let it run until it waits
+// for the next one", however many rounds of pings it performs in between.
 type instance struct {
 	c       cfgT
 	srv     *server.Server
 	h       http.Handler
-	results []bool    // per completed check: all tokens ok
-	lastEnd time.Time // virtual time the last check completed (or start)
-	pending []string  // outcome vector for the check in progress
-	pingIdx int
+	results []bool    // per completed round of pings: all tokens ok
+	lastEnd time.Time // virtual time the last round completed (or start)
+	state   []string  // what each token answers now (dealt in ping order inside a round)
+	round   []string  // answers given in the round in progress
+	rounds  int
+	pingCh  chan pingReq
+	done    chan struct{}
+	held    *pingReq // first ping of a round, not answered yet: the loop is not waiting on a timer
 }
+
+type pingReq struct{ reply chan error }
+
+// maxRoundsPerWake: a correct loop performs one round per wake-up; a loop that
+// keeps starting rounds without waiting is followed this far, then held.
+const maxRoundsPerWake = 3
 
 var cur *instance
 
-func waitEvent(kind string) vtime.Event {
-	deadline := time.After(20 * time.Second)
+func (in *instance) answer(r pingReq) {
+	o := in.state[len(in.round)%len(in.state)]
+	in.round = append(in.round, o)
+	var err error
+	switch o {
+	case "error":
+		err = errors.New("scripted token failure")
+	case "timeout":
+		// the ping hangs until the per-check deadline
+		vtime.Advance(time.Duration(in.c.Timeout)*time.Second + 1)
+		err = context.DeadlineExceeded
+	}
+	if len(in.round) == in.c.Tokens {
+		in.endRound()
+	}
+	r.reply <- err
+}
+
+func (in *instance) endRound() {
+	if len(in.round) == 0 {
+		return
+	}
+	ok := true
+	for _, o := range in.round {
+		if o != "ok" {
+			ok = false
+		}
+	}
+	in.results = append(in.results, ok)
+	in.lastEnd = vtime.Now()
+	in.round = nil
+	in.rounds++
+}
+
+// settle lets the loop run until it waits on a timer (true) or until it starts
+// yet another round without having waited (false; that round's first ping is held).
+func (in *instance) settle(hist []event) bool {
+	here := 0
+	stall := time.NewTimer(20 * time.Second)
+	defer stall.Stop()
 	for {
 		select {
-		case e := <-vtime.Events:
-			if e.Kind == kind {
-				return e
+		case r := <-in.pingCh:
+			if len(in.round) == 0 && here >= maxRoundsPerWake {
+				in.held = &r
+				return false
 			}
-		case <-deadline:
-			fmt.Println("HARNESS-ERROR: health loop did not produce timer event", kind)
-			os.Exit(2)
+			before := in.rounds
+			in.answer(r)
+			if in.rounds > before {
+				here++
+			}
+		case e := <-vtime.Events:
+			if e.Kind == "new" || e.Kind == "reset" {
+				in.endRound() // a round that asked fewer tokens than are configured
+				return true
+			}
+		case <-stall.C:
+			loopBroken = true
+			run.Violation("health-loop-stalled", fmt.Sprintf("the health loop neither pings a token nor waits on a timer (20 s of real time); config %+v history %v", in.c, hist), map[string]any{"config": in.c, "history": hist})
+			return false
 		}
 	}
 }
@@ -119,29 +184,26 @@ func newInstance(c cfgT) *instance {
 	vtime.ResetClock()
 	vtime.Events = make(chan vtime.Event, 1024)
 	faketoken.Reset()
-	in := &instance{c: c}
+	in := &instance{c: c, pingCh: make(chan pingReq), done: make(chan struct{})}
+	for i := 0; i < c.Tokens; i++ {
+		in.state = append(in.state, "ok")
+	}
 	cur = in
 	faketoken.S.Ping = func(ctx context.Context, name string) error {
-		in := cur
-		if in == nil || in.pending == nil {
-			return nil
-		}
 		// tokens are pinged in map order; the reference treats the vector as a
 		// multiset, so outcomes are dealt in call order.
-		o := "ok"
-		if in.pingIdx < len(in.pending) {
-			o = in.pending[in.pingIdx]
+		r := pingReq{make(chan error, 1)}
+		select {
+		case in.pingCh <- r:
+		case <-in.done:
+			return nil
 		}
-		in.pingIdx++
-		switch o {
-		case "error":
-			return errors.New("scripted token failure")
-		case "timeout":
-			// the ping hangs until the per-check deadline
-			vtime.Advance(time.Duration(in.c.Timeout)*time.Second + 1)
-			return context.DeadlineExceeded
+		select {
+		case err := <-r.reply:
+			return err
+		case <-in.done:
+			return nil
 		}
-		return nil
 	}
 	srv, err := server.New(mkConfig(c))
 	if err != nil {
@@ -150,34 +212,53 @@ func newInstance(c cfgT) *instance {
 	in.srv = srv
 	in.h = srv.Handler()
 	in.lastEnd = vtime.Now()
-	// the loop creates its timer with NewTimer(0)
-	waitEvent("new")
+	in.settle(nil)
 	return in
 }
 
-func (in *instance) apply(e event) {
+// wake delivers the wake-up(s) the loop is waiting for.
+func (in *instance) wake(hist []event) bool {
+	ts := vtime.ActiveTimers()
+	if len(ts) == 0 {
+		loopBroken = true
+		run.Violation("health-loop-not-waiting", fmt.Sprintf("no timer is armed although the loop is not in a check: background checking has stopped; config %+v history %v", in.c, hist), map[string]any{"config": in.c, "history": hist})
+		return false
+	}
+	for _, t := range ts {
+		t.Fire()
+	}
+	return true
+}
+
+func (in *instance) apply(e event, hist []event) {
+	if in.held != nil || loopBroken {
+		return
+	}
 	switch e.Kind {
 	case "advance":
 		vtime.Advance(time.Duration(e.D))
 	case "check":
-		ts := vtime.ActiveTimers()
-		if len(ts) != 1 {
-			fmt.Println("HARNESS-ERROR: expected exactly one armed timer, have", len(ts))
-			os.Exit(2)
+		in.state = e.V
+		if in.wake(hist) {
+			in.settle(hist)
 		}
-		in.pending = e.V
-		in.pingIdx = 0
-		ts[0].Fire()
-		waitEvent("reset") // loop ran healthCheck and re-armed
-		in.pending = nil
-		allOK := true
-		for _, o := range e.V {
-			if o != "ok" {
-				allOK = false
-			}
-		}
-		in.results = append(in.results, allOK)
-		in.lastEnd = vtime.Now()
+	}
+}
+
+// beginCheck delivers the wake-up and holds the first ping of the check.
+func (in *instance) beginCheck(e event, hist []event) bool {
+	in.state = e.V
+	if !in.wake(hist) {
+		return false
+	}
+	select {
+	case r := <-in.pingCh:
+		in.held = &r
+		return true
+	case <-time.After(20 * time.Second):
+		loopBroken = true
+		run.Violation("health-loop-stalled", fmt.Sprintf("no ping after the loop's timer fired (20 s of real time); config %+v history %v", in.c, hist), map[string]any{"config": in.c, "history": hist})
+		return false
 	}
 }
 
@@ -218,10 +299,19 @@ func loopGoroutines() int {
 	return strings.Count(string(buf[:n]), "healthCheckLoop")
 }
 
-// closeAndCheck closes the server and checks the loop ends.
+// closeAndCheck closes the server and checks that background checking ends:
+// a round in flight may complete, no further round may start, and the loop
+// goroutine must go away.
 func (in *instance) closeAndCheck(hist []event) {
+	defer close(in.done)
+	if loopBroken {
+		return
+	}
 	before := loopGoroutines()
-	pingsBefore := faketoken.S.Count("ping")
+	where := "while the loop waits for its timer"
+	if in.held != nil {
+		where = "during a check (first ping outstanding)"
+	}
 	in.srv.Close()
 	// a second Close must be harmless
 	func() {
@@ -232,33 +322,55 @@ func (in *instance) closeAndCheck(hist []event) {
 		}()
 		in.srv.Close()
 	}()
-	wait := 10 * time.Second
-	if loopBroken {
-		wait = 50 * time.Millisecond
-	}
-	deadline := time.Now().Add(wait)
-	gone := false
-	for time.Now().Before(deadline) {
-		if loopGoroutines() < before {
-			gone = true
-			break
+	inFlight := false
+	if in.held != nil {
+		h := *in.held
+		in.held = nil
+		inFlight = true
+		in.answer(h)
+		if len(in.round) == 0 {
+			inFlight = false
 		}
-		time.Sleep(200 * time.Microsecond)
 	}
-	if !gone {
-		loopBroken = true
-		run.Violation("health-loop-survives-close", fmt.Sprintf("after Server.Close the healthCheckLoop goroutine is still running (waited %s); config %+v history %v", wait, in.c, hist), map[string]any{"config": in.c, "history": hist})
-		return
+	wait := 10 * time.Second
+	deadline := time.After(wait)
+	tick := time.NewTicker(200 * time.Microsecond)
+	defer tick.Stop()
+	for {
+		select {
+		case r := <-in.pingCh:
+			if !inFlight {
+				loopBroken = true
+				r.reply <- nil
+				run.Violation("health-loop-survives-close", fmt.Sprintf("Server.Close %s: the loop starts another round of token checks afterwards; config %+v history %v", where, in.c, hist), map[string]any{"config": in.c, "history": hist, "closed": where})
+				return
+			}
+			in.answer(r)
+			if len(in.round) == 0 {
+				inFlight = false
+			}
+		case <-tick.C:
+			if loopGoroutines() < before {
+				// firing the (stopped) timers must not cause another ping
+				for _, t := range vtime.ActiveTimers() {
+					t.Fire()
+				}
+				runtime.Gosched()
+				select {
+				case r := <-in.pingCh:
+					r.reply <- nil
+					run.Violation("ping-after-close", fmt.Sprintf("config %+v history %v", in.c, hist), map[string]any{"config": in.c, "history": hist})
+				default:
+				}
+				run.Outcome("close:loop-ended:" + where)
+				return
+			}
+		case <-deadline:
+			loopBroken = true
+			run.Violation("health-loop-survives-close", fmt.Sprintf("Server.Close %s: the healthCheckLoop goroutine is still running (waited %s); config %+v history %v", where, wait, in.c, hist), map[string]any{"config": in.c, "history": hist, "closed": where})
+			return
+		}
 	}
-	// firing the (stopped) timer must not cause another ping
-	for _, t := range vtime.ActiveTimers() {
-		t.Fire()
-	}
-	runtime.Gosched()
-	if faketoken.S.Count("ping") != pingsBefore {
-		run.Violation("ping-after-close", fmt.Sprintf("config %+v history %v", in.c, hist), map[string]any{"config": in.c, "history": hist})
-	}
-	run.Outcome("close:loop-ended")
 }
 
 type key struct {
@@ -327,8 +439,8 @@ func explore(c cfgT) {
 	type node struct{ hist []event }
 	build := func(hist []event) *instance {
 		in := newInstance(c)
-		for _, e := range hist {
-			in.apply(e)
+		for i, e := range hist {
+			in.apply(e, hist[:i+1])
 		}
 		return in
 	}
@@ -369,6 +481,11 @@ func explore(c cfgT) {
 			evalState(in, hist)
 			k := in.canon()
 			isNew := !seen[k]
+			if in.held != nil {
+				// the loop went on checking without waiting: evaluated and closed here, not expanded
+				run.Outcome("loop-keeps-checking-without-waiting")
+				isNew = false
+			}
 			if isNew {
 				seen[k] = true
 				run.AddStates(1)
@@ -385,6 +502,19 @@ func explore(c cfgT) {
 			in.closeAndCheck(hist)
 			if loopBroken {
 				break
+			}
+			// ... and in the middle of the check that leads there
+			if e.Kind == "check" {
+				mid := build(nd.hist)
+				if mid.held == nil && mid.beginCheck(e, hist) {
+					run.Eval(1)
+					mid.closeAndCheck(hist)
+				} else {
+					close(mid.done)
+				}
+				if loopBroken {
+					break
+				}
 			}
 		}
 	}
@@ -423,8 +553,9 @@ func main() {
 		}
 	}
 	run.Set("configurations", len(cfgs))
-	run.Rule("state = canonical (healthStatus, age of last completed check saturated just above 3 intervals, trailing failure run) reached by a history of events {check(vector over ok/error/timeout per token), advance(1 | 3 | 3+1ns intervals; thorough adds 1ns and 3 intervals-1ns in one depth-bounded configuration)} replayed on a fresh real server.New; BFS to fixpoint per configuration; GET /health compared with the reference predicate in every state; Close (twice) at every transition target. distinct_nontrivial = distinct canonical states other than the initial one")
+	run.Rule("state = canonical (healthStatus, age of last completed check saturated just above 3 intervals, trailing failure run) reached by a history of events {check(vector over ok/error/timeout per token), advance(1 | 3 | 3+1ns intervals; thorough adds 1ns and 3 intervals-1ns in one depth-bounded configuration)} replayed on a fresh real server.New; BFS to fixpoint per configuration; GET /health compared with the reference predicate in every state; Close (twice) at every transition target and, for every check transition, with the first ping of that check still outstanding: the round in flight may finish, no further round may start, the loop goroutine must end. distinct_nontrivial = distinct canonical states other than the initial one")
 	run.Assume("token Ping order inside one check is map order; the reference treats the per-check outcome vector as a multiset")
 	run.Assume("goroutine exit after Close is observed by polling runtime.Stack for up to 10 s (correct code exits in microseconds)")
+	run.Assume("the loop is driven only through what it waits on (virtual timers / tickers, token pings); a loop that starts more than 3 rounds of pings per wake-up is held at the next ping, judged and closed there, and not expanded further")
 	run.Finish()
 }
